@@ -1086,7 +1086,7 @@ fn main() {
         let lines = read_lines(p);
         replay(&mut r, &lines);
     } else {
-        let (seq_cases, seq_len, conc_cases) = if args.thorough { (400, 40, 6000) } else { (30, 25, 250) };
+        let (seq_cases, seq_len, conc_cases) = if args.thorough { (300, 40, 3000) } else { (30, 25, 250) };
         for _ in 0..seq_cases {
             let l = seq_len / 2 + rng.below(seq_len as u64) as usize;
             sequential_case(&mut r, &mut rng, l);
@@ -1105,8 +1105,6 @@ fn main() {
         if args.thorough {
             let triples: Vec<[(u64, bool); 3]> = vec![
                 [(6, false), (7, false), (8, false)],
-                [(8, false), (7, false), (6, false)],
-                [(6, false), (6, false), (7, false)],
                 [(5, false), (6, false), (4, false)],
                 [(3, true), (6, false), (7, false)],
             ];
